@@ -12,7 +12,8 @@ from collections import Counter
 from cisco_acl import Ace, AceGroup, Acl, Address, AddressAg, AddrGroup, Remark
 
 from . import gen
-from .aclobs import (alpha_attr, alpha_text, fastcopy, leaves, make_twin, norm,
+from .aclobs import (alpha_attr, alpha_text, fastcopy, leaves, make_twin,
+                     make_twin_structured, norm,
                      text_projection)
 from .aclops import STATE_FREE, member_objs, perform
 from .aclref import SEQ_MAX, Expect, apply_model, needs_split, split_rule
@@ -602,13 +603,18 @@ class AclMachine(Machine):
         others = [(o, norm(o["acl"].data())) for o in self.slots if o is not slot]
         # -- twin (history-free object with the same observable state)
         twin = None
-        try:
-            twin = make_twin(pre_data)
-            if twin.line != pre_text or norm(twin.data()) != norm(pre_data):
+        for build in (make_twin, make_twin_structured):
+            try:
+                twin = build(pre_data)
+                if twin.line != pre_text or norm(twin.data()) != norm(pre_data):
+                    twin = None
+            except DOCUMENTED:
                 twin = None
-                self.probes["twin_unbuildable"] += 1
-        except DOCUMENTED:
-            twin = None
+            if twin is not None:
+                if build is make_twin_structured:
+                    self.probes["twin_structured"] += 1
+                break
+        if twin is None:
             self.probes["twin_unbuildable"] += 1
         # -- copy / export_import replace the object
         exp = apply_model(m, op)
